@@ -31,6 +31,16 @@ if k == 'reflect':
     x, y, z = S.Sun.rectangular_coordinates_mean_equinox(e)
     if abs(sqrt(x * x + y * y + z * z) - R0) > 1e-8:
         bad = 'norm of the rectangular coordinates %r vs radius vector %r' % (sqrt(x * x + y * y + z * z), R0)
+elif k == 'nutation':
+    from math import sin, cos, radians
+    fn, amp, lim, trig_ = (C.nutation_longitude, -17.20, 3.5, sin) if INPUTS['which'] == 'lon' else (C.nutation_obliquity, 9.20, 1.5, cos)
+    for i in range(0, 6000 * 12):
+        T = -40.0 + i / 1200.0
+        e = Epoch(2451545.0 + T * 36525.0)
+        om = 125.04452 + T * (-1934.136261 + T * (0.0020708 + T / 450000.0))
+        v = float(fn(e)) * 3600.0
+        if abs(v - amp * trig_(radians(om))) > lim:
+            bad = '%s at T=%r: %r arcsec, node term %r' % (fn.__name__, T, v, amp * trig_(radians(om))); break
 elif k == 'obliquity':
     T = F(INPUTS.get('T', 0))
     e = Epoch(2451545.0 + T * 36525.0)
@@ -144,20 +154,145 @@ def task_obliquity(_):
     return t
 
 
+class NutAngle(object):
+    """stand-in for Angle inside Coordinates while the nutation series is explored with boxed sin/cos: a plain value in
+    degrees with the arithmetic the series uses (arguments of boxed functions are only keys); Angle(0, 0, x) = x arcsec"""
+    def __init__(self, *a, **k):
+        if len(a) == 3:
+            self.v = a[0] + a[1] / 60.0 + a[2] / 3600.0
+        elif len(a) == 1:
+            self.v = a[0].v if isinstance(a[0], NutAngle) else a[0]
+        else:
+            self.v = 0.0
+
+    def __add__(self, o):
+        return NutAngle(self.v + (o.v if isinstance(o, NutAngle) else o))
+    __radd__ = __add__
+
+    def __iadd__(self, o):
+        return self.__add__(o)
+
+    def __mul__(self, o):
+        return NutAngle(self.v * o)
+    __rmul__ = __mul__
+
+    def rad(self):
+        return self.v * Num.const(0.017453292519943295)
+
+
+def task_nutation(which):
+    """nutation_longitude / nutation_obliquity for a symbolic epoch: result = sum_i c_i(T) * box_i (boxes = sin/cos of the
+    63 arguments); the node term is the box with the dominant coefficient; the rest is bounded by sum_i sup_T |c_i(T)|"""
+    fname, main_amp, limit = {'lon': ('nutation_longitude', -17.20, 3.5), 'obl': ('nutation_obliquity', 9.20, 1.5)}[which]
+    t = harness.Task(fname)
+    coords = loader.mod('Coordinates')
+    E = loader.mod('Epoch')
+    T = Num.real_var('T')
+    TLO, THI = -40, 20
+    ep = E.Epoch()
+    orig_angle, orig_cid = coords.Angle, E.Epoch.check_input_date
+
+    def fn():
+        ep._jde = T * 36525.0 + 2451545.0
+        r = getattr(coords, fname)(ep)
+        return r.v, [(k_, v) for k_, v in core.CUR.memo.items() if isinstance(k_, tuple) and k_[0] in ('sin', 'cos')]
+    coords.Angle = NutAngle
+    E.Epoch.check_input_date = staticmethod(lambda *a, **k: a[0])
+    try:
+        ctx, paths = core.explore(fn, [T.e >= TLO, T.e <= THI], trig='box', check_div0=False, timeout_ms=20000, max_paths=20, max_seconds=300)
+    finally:
+        coords.Angle, E.Epoch.check_input_date = orig_angle, orig_cid
+    t.absorb_ctx(ctx, paths)
+    bd = '%s: every T in [%d, %d] centuries (years -2000..4000), sin/cos boxed' % (fname, TLO, THI)
+    okp = [p for p in paths if p.kind == 'ok']
+    t.reach += 1
+    if len(okp) != 1 or len(paths) != 1:
+        t.ob('%s total: one path, no exception' % fname, 'unknown', 0, bd)
+        t.notes.append('paths: %r' % [(p.kind, repr(p.exc)) for p in paths][:3])
+        return t
+    R, boxes = okp[0].val
+    R = core.lift(R).re() * 3600          # arcsec
+    bx = [v for k_, v in boxes]
+    bx = [b.e if isinstance(b, Num) else b for b in bx]
+    zero = [(b, z3.RealVal(0)) for b in bx]
+    p0 = z3.simplify(z3.substitute(R, *zero))
+    coeffs = []
+    for b in bx:
+        one = [(b2, z3.RealVal(1) if b2 is b else z3.RealVal(0)) for b2 in bx]
+        coeffs.append(z3.simplify(z3.substitute(R, *one) - p0))
+    lin = p0 + sum((b * c for b, c in zip(bx, coeffs)), z3.RealVal(0))
+    s = z3.Solver()
+    s.set('timeout', 120000)
+    s.add(R != lin)
+    r_lin = str(s.check())
+    t.ob('%s = constant + sum_i c_i(T) * box_i (linear in the %d boxed sines/cosines)' % (fname, len(bx)), r_lin, 0, bd)
+    t.reach += 1
+    if r_lin != 'unsat':
+        return t
+
+    def at(expr, tv):
+        v = z3.simplify(z3.substitute(expr, (T.e, z3.RealVal(tv))))
+        try:
+            return float(v.as_fraction())
+        except Exception:
+            return None
+
+    def sup_abs(expr):
+        vals = [at(expr, tv) for tv in (TLO, 0, THI)]
+        if any(v is None for v in vals):
+            return None
+        M = max(abs(v) for v in vals) * 1.0001 + 1e-9
+        for _ in range(12):
+            s2 = z3.Solver()
+            s2.set('timeout', 30000)
+            s2.add(T.e >= TLO, T.e <= THI, z3.Or(expr > z3.RealVal(repr(M)), expr < -z3.RealVal(repr(M))))
+            if s2.check() == z3.unsat:
+                return M
+            M *= 1.5
+        return None
+    # the node term: the dominant coefficient
+    c0s = [at(c, 0) for c in coeffs]
+    main = [i for i, c in enumerate(c0s) if c is not None and abs(c - main_amp) <= 0.01 * abs(main_amp)]
+    if len(main) != 1:
+        t.ob('%s: exactly one term with amplitude %.2f arcsec (the node term)' % (fname, main_amp), 'sat', 0, bd)
+        t.cand('C08.nut', {'kind': 'nutation', 'which': which}, 'no single node term')
+        return t
+    mi = main[0]
+    t.notes.append('the node term of %s is the box of %s' % (fname, str(boxes[mi][0])[:120]))
+    rest = [sup_abs(c) for i, c in enumerate(coeffs) if i != mi]
+    resid = sup_abs(z3.simplify(coeffs[mi] - z3.RealVal(repr(main_amp))))
+    const = sup_abs(p0)
+    ok = resid is not None and const is not None and all(r_ is not None for r_ in rest)
+    t.ob('every coefficient c_i(T) bounded over the whole range of T (univariate queries)@' + fname, 'unsat' if ok else 'unknown', 0, '%d coefficients' % len(coeffs), n=len(coeffs) + 1)
+    t.reach += len(coeffs) + 1
+    if not ok:
+        return t
+    total = sum(rest) + resid + const
+    t.samples.append({'function': fname, 'terms': len(coeffs), 'sum_of_other_amplitudes_arcsec': round(sum(rest), 4), 'node_term_residual_arcsec': round(resid, 4), 'limit_arcsec': limit})
+    t.ob('%s within %.1f arcsec of %.2f * %s(node): sum of the other amplitudes + residual of the node term <= limit' % (fname, limit, main_amp, 'sin' if which == 'lon' else 'cos'),
+         'unsat' if total <= limit else 'sat', 0, 'sum %.4f arcsec, limit %.1f' % (total, limit))
+    t.reach += 1
+    if total > limit:
+        t.cand('C08.nut', {'kind': 'nutation', 'which': which}, 'amplitude bounds exceed the limit')
+    return t
+
+
 def dispatch(job):
-    return {'refl': task_reflection, 'obl': task_obliquity}[job](0)
+    if job in ('lon', 'obl'):
+        return task_nutation(job)
+    return {'refl': task_reflection, 'obl0': task_obliquity}[job](0)
 
 
 def main(tier):
     loader.install()
     chk = harness.Check(PID, tier)
-    chk.replays = {'C08.reflect': REPLAY, 'C08.obl': REPLAY}
-    chk.functions = ['Sun.geometric_geocentric_position', 'Sun.apparent_geocentric_position', 'Sun.rectangular_coordinates_mean_equinox', 'Coordinates.true_obliquity', 'Coordinates.mean_obliquity']
-    chk.run(dispatch, ['refl', 'obl'], 'Sun/Earth frames and obliquity')
+    chk.replays = {'C08.reflect': REPLAY, 'C08.obl': REPLAY, 'C08.nut': REPLAY}
+    chk.functions = ['Coordinates.nutation_longitude', 'Coordinates.nutation_obliquity', 'Sun.geometric_geocentric_position', 'Sun.apparent_geocentric_position', 'Sun.rectangular_coordinates_mean_equinox', 'Coordinates.true_obliquity', 'Coordinates.mean_obliquity']
+    chk.run(dispatch, ['refl', 'obl0', 'lon', 'obl'], 'Sun/Earth frames, obliquity, nutation')
     chk.bounds = {'Earth position': 'arbitrary (L, B, R) with |sin B| <= 1e-4', 'mean obliquity': '|T| <= 20 centuries'}
     chk.stubs = ['Earth.geometric/apparent_heliocentric_position -> arbitrary (L, B, R); mean_obliquity -> arbitrary angle in (20, 27) degrees inside rectangular_coordinates_mean_equinox',
-                 'true_obliquity: its two callees -> arbitrary angles']
-    chk.outside = ['J2000 / B1950 / arbitrary-equinox frames vs the library\'s precession to 2 arcsec (numeric composition)', 'nutation within 3.5 / 1.5 arcsec of the main-term model (63 terms x symbolic T)',
+                 'true_obliquity: its two callees -> arbitrary angles', 'nutation series: Angle inside Coordinates -> plain value stand-in, sin/cos -> boxes in [-1, 1] keyed by argument; the main-term model uses the series\' own node argument']
+    chk.outside = ['J2000 / B1950 / arbitrary-equinox frames vs the library\'s precession to 2 arcsec (numeric composition)', 'nutation: a changed argument multiplier (the arguments of boxed sines are only keys) or a coefficient change that keeps the sum of amplitudes under the limit',
                    'coarse vs VSOP solar longitude (values of the series)', 'date-argument forms (C02)']
     chk.assumptions = ['real arithmetic, trig atoms']
     return chk.finish()
